@@ -242,7 +242,12 @@ def handleRt (toks impl : List String) : String :=
                 else
                   -- the leaf-wise round trip of the structure theorem must give the same value
                   match rtOf Spec.schema 64 false (.named "DB") (zeroOf Spec.schema 8 (.named "DB")) db with
-                  | some q => if dumpV q == decS then s!"OK nt=1 dom={dflag} rt=1" else s!"CORR clause=lt.rt_model rt={(dumpV q).take 300}"
+                  | some q =>
+                    if dumpV q != decS then s!"CORR clause=lt.rt_model rt={(dumpV q).take 300}" else
+                    -- premise of `reencode_stable`: when it holds the second encoding must be the same
+                    let st := stableOf Spec.schema 64 false (.named "DB") (zeroOf Spec.schema 8 (.named "DB")) db
+                    if st && enc2S != "same" then "CORR clause=lt.stable_model"
+                    else s!"OK nt=1 dom={dflag} rt=1 st={if st then 1 else 0} same={if enc2S == "same" then 1 else 0}"
                   | none => s!"OK nt=1 dom={dflag} rt=0"
               | .err _ => if decS == "err" then s!"OK nt=1 dom={dflag}" else "CORR clause=lt.decode_model model=err"
               | .unmodelled => "SKIP reason=decode-unmodelled"
